@@ -1,5 +1,7 @@
 pub mod common;
+pub mod doc;
 pub mod engine;
+pub mod props;
 pub mod raw;
 pub mod tree;
-pub mod props;
+pub mod treegen;
